@@ -23,12 +23,14 @@ func (v *Vue) evalAttributes(ctx VueContext, n *html.Node) (map[string]any, erro
 	// First pass: collect static attributes and evaluate bound ones
 	for _, a := range n.Attr {
 		key := a.Key
-		val := strings.TrimSpace(a.Val)
+		// Only an expression is trimmed; the value of a static attribute is kept as
+		// written, surrounding whitespace included
+		val := a.Val
 
 		// The internal v-html / v-text carriers hold evaluated content (data),
 		// which must never be interpolated as template code
 		if key == "data-v-html-content" || key == "data-v-text-content" {
-			newAttrs = append(newAttrs, html.Attribute{Key: key, Val: val})
+			newAttrs = append(newAttrs, html.Attribute{Key: key, Val: strings.TrimSpace(val)})
 			continue
 		}
 
@@ -47,7 +49,7 @@ func (v *Vue) evalAttributes(ctx VueContext, n *html.Node) (map[string]any, erro
 
 		switch {
 		case boundName != key:
-			boundValue, err := v.evalBoundAttribute(ctx, boundName, val)
+			boundValue, err := v.evalBoundAttribute(ctx, boundName, strings.TrimSpace(val))
 			if err != nil {
 				return nil, fmt.Errorf("error evaluating attr %s: %w", boundName, err)
 			}
